@@ -121,6 +121,18 @@ def replay(rec, ctx):
         if f2(*args) != f(*args):
             bad("string-axis-differs-from-integer-axis", "")
         r.calls.clear()
+    elif w == "ClampInputBounds":
+        kw = {}
+        for k, (kind, (lo, hi)) in enumerate(zip(c["kinds"], e["bounds"])):
+            if kind in ("lower", "both"):
+                kw["xyz"[k] + "min"] = lo / D
+            if kind in ("upper", "both"):
+                kw["xyz"[k] + "max"] = hi / D
+        try:
+            f = _cls(f"ClampInput{len(c['kinds'])}D")(r, **kw)
+        except Exception as ex:      # noqa: BLE001
+            bad(f"valid-bounds-refused-{type(ex).__name__}", f"ClampInput{len(c['kinds'])}D(f, {kw}): {ex!r}"[:200])
+            return viol
     elif w.startswith("ClampInput"):
         lo, hi = c["lo"] / D, c["hi"] / D
         lim = [(lo, hi), (lo - 1 / D, hi + 2 / D), (lo + 2 / D, hi + 20 / D)][:len(names)]
